@@ -26,9 +26,9 @@ const (
 type Ob struct {
 	Rule   string `json:"rule"`
 	Fn     string `json:"fn"`
-	Site   string `json:"site"`            // the construct, normalised (no line numbers)
-	Pos    string `json:"pos"`             // file:line:col, for the reader only
-	Want   string `json:"want,omitempty"`  // what the rule requires here
+	Site   string `json:"site"`             // the construct, normalised (no line numbers)
+	Pos    string `json:"pos"`              // file:line:col, for the reader only
+	Want   string `json:"want,omitempty"`   // what the rule requires here
 	Detail string `json:"detail,omitempty"` // what was found / why it fails
 	Status Status `json:"status"`
 	Known  bool   `json:"known_finding,omitempty"`
@@ -112,7 +112,9 @@ type Finding struct {
 }
 
 // LoadKnownFindings parses /verif/known-findings.txt: lines
-//   finding: property=<id> rule=<r> fn=<fn> site=<site> :: <what fails>
+//
+//	finding: property=<id> rule=<r> fn=<fn> site=<site> :: <what fails>
+//
 // "fixed:" lines are documentation only and suppress nothing.
 func LoadKnownFindings(path string) []Finding {
 	bs, err := os.ReadFile(path)
